@@ -57,6 +57,8 @@ type paramInfo struct {
 	Root  string     // Go parameter / receiver it comes from
 	Rel   []string   // field path below Root ([] = the parameter itself)
 	Slice bool       // list-valued
+	Extra bool       // an input that is not a Go parameter (stage3.go)
+	Doc   string     // what it stands for
 	Proj  [][]string // element field paths (declaration order) when Slice
 	GoTy  string     // Go type (of the slice), for documentation
 }
@@ -88,6 +90,8 @@ type loopCtx struct {
 	names    []string // free variables in order of first use
 	types_   map[string]string
 	idxUsed  bool
+	// `break`: the loop's continuation applied to the variables it assigns
+	breakCode string
 }
 
 func (l *loopCtx) use(name, ty string) {
@@ -108,6 +112,9 @@ func (t *tr) coqType(ty types.Type, at ast.Node) string {
 	}
 	if b, ok := ty.Underlying().(*types.Basic); ok && b.Kind() == types.Bool {
 		return "bool"
+	}
+	if lenOnlySlice(ty) {
+		return "Z" // represented by its length
 	}
 	fail(t.fset, at, "value of unsupported type %v in a loop", ty)
 	return ""
@@ -225,11 +232,28 @@ func projFieldType(rel []string) string {
 }
 
 func (t *tr) opaqueCall(c *ast.CallExpr, fn *types.Func) (ex, bool) {
-	sel, ok := c.Fun.(*ast.SelectorExpr)
-	if !ok || len(c.Args) != 0 || !t.opaque[fn.Name()] || t.loop == nil {
+	if !t.opaque[fn.Name()] || t.loop == nil {
 		return ex{}, false
 	}
-	root, rel, ok := t.pathOf(sel.X)
+	var recv ast.Expr
+	switch f := c.Fun.(type) {
+	case *ast.SelectorExpr: // x.M()
+		if len(c.Args) != 0 {
+			return ex{}, false
+		}
+		recv = f.X
+	case *ast.Ident: // f(&x) / f(x)
+		if len(c.Args) != 1 {
+			return ex{}, false
+		}
+		recv = c.Args[0]
+		if u, ok := recv.(*ast.UnaryExpr); ok && u.Op == token.AND {
+			recv = u.X
+		}
+	default:
+		return ex{}, false
+	}
+	root, rel, ok := t.pathOf(recv)
 	if !ok || !t.isElem(root) || len(rel) != 0 {
 		return ex{}, false
 	}
@@ -264,6 +288,9 @@ func (t *tr) opaqueCall(c *ast.CallExpr, fn *types.Func) (ex, bool) {
 			}
 		}
 		s.used[key] = []string{key}
+	}
+	if len(parts) == 1 {
+		return pure(flat(root, []string{key})), true
 	}
 	return ex{"Val " + flat(root, []string{key}), true}, true
 }
@@ -461,6 +488,9 @@ func (t *tr) builtinLen(c *ast.CallExpr) (ex, bool) {
 	if _, ok := t.info.Uses[id].(*types.Builtin); !ok {
 		return ex{}, false
 	}
+	if lenOnlySlice(t.info.TypeOf(c.Args[0])) {
+		return t.expr(c.Args[0]), true // the slice IS its length
+	}
 	sn, ok := t.slicePath(c.Args[0], true)
 	if !ok {
 		fail(t.fset, c, "len of something that is not a slice-of-struct parameter")
@@ -517,6 +547,9 @@ func (t *tr) callExt(c *ast.CallExpr, fn *types.Func, fi *fnInfo) ex {
 	}
 	args := []string{}
 	for _, p := range fi.Params {
+		if p.Extra {
+			fail(t.fset, c, "call of %s, which has the input parameter %s", fi.Name, p.Name)
+		}
 		a := argOf[p.Root]
 		if a == nil {
 			fail(t.fset, c, "internal: no argument for parameter %s of %s", p.Name, fi.Name)
@@ -627,6 +660,9 @@ func (t *tr) assignedVars(n ast.Node) []*types.Var {
 }
 
 func (t *tr) resCoqType(at ast.Node) string {
+	if t.truncStmt != nil {
+		return "res Z"
+	}
 	if len(t.resTy) == 0 {
 		return "res unit"
 	}
@@ -721,6 +757,10 @@ func (t *tr) rangeStmt(x *ast.RangeStmt, k func() string) string {
 	}
 	t.nloops++
 	hname := fmt.Sprintf("%s_loop%d", t.fnName, t.nloops)
+	lc.breakCode = "k_"
+	if len(accNames) > 0 {
+		lc.breakCode += " " + strings.Join(accNames, " ")
+	}
 	t.loop = lc
 	const fvMark, idxMark = "\x00FV\x00", "\x00IDX\x00"
 	rec := hname + " k_" + fvMark + " r_" + idxMark
@@ -838,7 +878,7 @@ func (t *tr) kfun(accNames []string, k func() string) string {
 func paramDoc(name string, ps []paramInfo) (string, []manifestParam) {
 	any := false
 	for _, p := range ps {
-		if p.Slice {
+		if p.Slice || p.Extra || p.Doc != "" {
 			any = true
 		}
 	}
@@ -854,6 +894,17 @@ func paramDoc(name string, ps []paramInfo) (string, []manifestParam) {
 			goPath += "." + strings.Join(p.Rel, ".")
 		}
 		m := manifestParam{Name: p.Name, CoqType: p.Type, Go: goPath, GoType: p.GoTy}
+		if p.Extra {
+			// an input that is not a Go parameter
+			m.Go = "(input) " + p.Doc
+			fmt.Fprintf(&b, "     %s : %s  =  %s\n", p.Name, p.Type, p.Doc)
+			mp = append(mp, m)
+			continue
+		}
+		if p.Doc != "" {
+			goPath += " — " + p.Doc
+			m.Go = goPath
+		}
 		if p.Slice {
 			fs := []string{}
 			for _, f := range p.Proj {
@@ -905,6 +956,9 @@ func sortedKeys(m map[string]bool) []string {
 // together with that `if`).
 func (t *tr) noJumps(body ast.Node, what string) {
 	ast.Inspect(body, func(m ast.Node) bool {
+		if b, ok := m.(*ast.BranchStmt); ok && b.Tok == token.BREAK && b.Label == nil && what == "range loop" {
+			return true // stage3: leave the loop with the current accumulators
+		}
 		switch m.(type) {
 		case *ast.BranchStmt, *ast.DeferStmt, *ast.GoStmt, *ast.LabeledStmt, *ast.FuncLit, *ast.SelectStmt, *ast.SendStmt:
 			fail(t.fset, m, "%T inside a %s", m, what)
